@@ -250,10 +250,31 @@ def run_property(mod, ctx, t0):
 # -------------------------------------------------------------------------------------------------------
 # helper used by most property modules: run traces, classify the first mismatch of each
 # -------------------------------------------------------------------------------------------------------
-def k_suite(ctx, kres, suite_name, traces, in_projection, sig_of=None, direct=None, shrink_budget=40):
+def pick_mismatch(r, in_projection, rank=None):
+    if not r.mism: return None
+    if rank is None:
+        f = parse_mismatch(r.mism[0])
+        if f is not None: f["result"] = r
+        return f
+    best = None
+    for l in r.mism:
+        f = parse_mismatch(l)
+        if f is None: continue
+        f["result"] = r
+        if not in_projection(f): continue
+        if best is None or rank(f) < rank(best): best = f
+    if best is None:
+        best = parse_mismatch(r.mism[0])
+        if best is not None: best["result"] = r
+    return best
+
+
+def k_suite(ctx, kres, suite_name, traces, in_projection, sig_of=None, direct=None, shrink_budget=40, rank=None):
     """Runs the traces, merges coverage into kres, returns Violations.
     in_projection(mismatch dict) -> bool : does this disagreement concern what the property speaks about?
-    direct(TraceResult) -> list[(sig, text)] : violations visible on the implementation's observations alone."""
+    direct(TraceResult) -> list[(sig, text)] : violations visible on the implementation's observations alone.
+    rank(mismatch dict) -> sortable : for traces made of independent cells (fresh session per cell), ALL disagreements are meaningful; the one with
+    the smallest rank is reported (e.g. "the implementation accepted what the model refuses" before "both refuse with different codes")."""
     kres["suites"] += 1
     results = run_traces(traces)
     viols = []
@@ -267,8 +288,7 @@ def k_suite(ctx, kres, suite_name, traces, in_projection, sig_of=None, direct=No
         if r.unparsed:
             kres["notes"].append("%s/%s: %d lines not understood by the model driver: %s" % (suite_name, r.trace.name, len(r.unparsed), r.unparsed[0][:200]))
         dv = direct(r) if direct else []
-        first = parse_mismatch(r.mism[0]) if r.mism else None
-        if first is not None: first["result"] = r
+        first = pick_mismatch(r, in_projection, rank)
         crashed = r.crashed
         interesting = None
         if dv:
@@ -288,8 +308,7 @@ def k_suite(ctx, kres, suite_name, traces, in_projection, sig_of=None, direct=No
                     d2 = direct(rr); return bool(d2) and d2[0][0] == s
                 if kind == "crash": return rr.crashed
                 if not rr.mism: return False
-                f2 = parse_mismatch(rr.mism[0])
-                if f2 is not None: f2["result"] = rr
+                f2 = pick_mismatch(rr, in_projection, rank)
                 return f2 is not None and in_projection(f2) and (sig_of(f2) if sig_of else "%s.%s" % (f2["op"], f2["cat"])) == s
             small = shrink(r.trace, keeps, shrink_budget) if shrink_budget else r.trace
             viols.append(Violation(s, text + "\n(trace %s of suite %s)" % (r.trace.name, suite_name), small.ops))
